@@ -240,8 +240,14 @@ class Explorer:
                   "flags": self.pool.flags, "history": [e.line() for e in hist],
                   "probe": probe.line() if probe is not None else None, "kind": kind,
                   "label": str(label), "detail": detail, "model_state": repr(state)}
+        match = {"kind": kind, "label": str(label), "walk": self.name}
+        # a reference model may tag its reason with [cause=...]: lets a known finding name one specific class of inputs
+        import re as _re
+        m = _re.search(r"\[cause=([\w-]+)\]", str(detail))
+        if m:
+            match["cause"] = m.group(1)
         self.ctx.violation("%s: %s on %s after %s: %s" % (self.name, kind, label, short_hist(hist), detail),
-                           replay, match={"kind": kind, "label": str(label), "walk": self.name})
+                           replay, match=match)
 
     def run(self):
         if self.parallel:
